@@ -576,15 +576,20 @@ class MetadataManager:
             return None
         if not text:
             return None
-        if text.isascii() and text.isdigit():
-            # Legacy format: plain version number -> legacy filename.
-            # ASCII only: str.isdigit() also accepts characters such as
-            # superscripts that int() rejects, and a hint is never allowed to
-            # make opening the table raise.
-            return int(text), f"v{text}.metadata.json"
-        m = _METADATA_FILE_RE.match(text)
-        if m:
-            return int(m.group(1)), text
+        try:
+            if text.isascii() and text.isdigit():
+                # Legacy format: plain version number -> legacy filename.
+                # ASCII only: str.isdigit() also accepts characters such as
+                # superscripts that int() rejects, and a hint is never allowed to
+                # make opening the table raise.
+                return int(text), f"v{text}.metadata.json"
+            m = _METADATA_FILE_RE.match(text)
+            if m:
+                return int(m.group(1)), text
+        except ValueError:
+            # int() refuses digit strings beyond the interpreter's limit
+            # (sys.get_int_max_str_digits): garbage, not a version.
+            return None
         return None
 
     def _read_version_hint(self) -> Optional[Tuple[int, str]]:
